@@ -22,6 +22,8 @@ def mk(c, **kw):
   f = c["fam"]
   if f == "qbits":
     return Q.quantized_bits(c["bits"], c["integer"], c["sym"], keep_negative=bool(c["kn"]), use_ste=c["ste"], **kw)
+  if f == "qbits_auto":
+    return Q.quantized_bits(c["bits"], c["integer"], 1, alpha=c["alpha"], use_ste=c["ste"], **kw)
   if f == "qrelu":
     return Q.quantized_relu(c["bits"], c["integer"], 0, 0.0 if c["slope"] is None else 2.0 ** -c["slope"],
                             use_ste=c["ste"], **kw)
@@ -47,6 +49,9 @@ def configs(tier, rng):
   for bits, integer, kn, sym in itertools.product([2, 3, 4, 8], [0, 1, 2], [1, 0], [0, 1]):
     allc.append(dict(fam="qlin", bits=bits, integer=integer, kn=kn, sym=sym, alpha=None))
   n_fixed = len(allc)
+  # data-dependent scales: the mixing must still be between the INPUT and the quantized value (relational check)
+  for bits, integer, alpha, ste in itertools.product([4, 6], [0, 1, 2], ["auto", "auto_po2"], [True, False]):
+    allc.append(dict(fam="qbits_auto", bits=bits, integer=integer, alpha=alpha, ste=ste))
   for bits, ste in itertools.product([3, 4, 6], [True, False]):
     allc.append(dict(fam="po2", bits=bits, ste=ste, mv=None))
     for s, mv in ((None, None), (2, None), (None, 2.0), (2, 2.0)):
@@ -59,6 +64,8 @@ def configs(tier, rng):
 
 
 def inputs(c, rng):
+  if c["fam"] == "qbits_auto":
+    return np.asarray(list(rng.normal(0, 1.5, size=40)) + [0.0, 1.0, -1.0, 0.75, 3.0], dtype=np.float32)
   if c["fam"] in ("po2", "rpo2"):
     xs = list(np.exp(rng.uniform(-6, 4, size=40)) * rng.choice([-1, 1], size=40)) + [0.0, 1.0, -1.0, 0.75, 3.0]
     return np.asarray(xs, dtype=np.float32)
@@ -164,7 +171,7 @@ def main():
                           {"config": c, "f": f, "x_bits": env.f2b([x[i]])[0]})
     # f = 0 returns the surrogate
     if y0 is not None:
-      if c["fam"] in ("qbits", "qlin", "po2"):
+      if c["fam"] in ("qbits", "qlin", "po2", "qbits_auto"):
         sur = x
       elif c["fam"] == "qrelu":
         sl = 0.0 if c["slope"] is None else 2.0 ** -c["slope"]
